@@ -130,7 +130,7 @@ def make_default(r, typ, dkind):
         base = r.choice(base[len("Union["):-1].split(", "))
     table = {
         "int": {"int": [5, 42, 7, 1], "negint": [-3, -100, -1], "zero": [0]},
-        "float": {"float": [0.5, 3.25, 2.0], "negfloat": [-1.5, -0.001], "smallfloat": [1e-07]},
+        "float": {"float": [0.5, 3.25, 2.0], "negfloat": [-1.5, -0.001], "smallfloat": [1e-07], "zero": [0.0]},
         "str": {"str": ["hello", "mnist", "a_b", "r", ",", "ab", "0", "\u00e9"], "strspace": ["x y"], "strtilde": ["~/dir"], "strdot": ["a.b"],
                 "emptystr": [""]},
         "bool": {"bool": [True, False]},
@@ -149,7 +149,7 @@ def admissible_default_kinds(typ):
     if base == "int":
         out += ["int", "negint", "zero"]
     elif base == "float":
-        out += ["float", "negfloat", "smallfloat"]
+        out += ["float", "negfloat", "smallfloat", "zero"]
     elif base == "str":
         out += ["str", "strspace", "strtilde", "strdot", "emptystr"]
     elif base == "bool":
@@ -199,6 +199,8 @@ def default_kind_of(p):
     if isinstance(d, complex):
         return "imag"
     if isinstance(d, float):
+        if d == 0:
+            return "zero"
         return "negfloat" if d < 0 else ("smallfloat" if "e" in repr(d) else "float")
     if isinstance(d, str):
         if d.startswith("```"):
